@@ -288,6 +288,9 @@ def _run_build(d, exp, tmp, note, routes=None):
 def run_dimfile(vec):
     f, exp = vec["file"], vec["res"]
     items = list(f["ints"]) if f["dtype"] == "int" else list(f["strs"])
+    if f["dtype"] != "int" and (len(items) + len(f["name"])) % 2:
+        # every second text dimension carries labels outside ASCII (files are written as UTF-8, the readers' default)
+        items = [it + sfx for it, sfx in zip(items, ["-Österreich", "-Åland", "-São Tomé", "-Κύπρος", "-日本", "-Côte"] * 3)]
     cells = ([f["name"]] if f["headed"] else []) + items
     if f["twod"]:
         width = max(2, len(cells))
